@@ -826,10 +826,12 @@ func (r *runningStep) processInput(input executeInput) {
 		unresolvableStage = StageIDOutputs
 		unresolvableError = fmt.Errorf("foreach subworkflow failed with errors (%v)", errors)
 		outputID = "error"
-		dataMap := make(map[int]any, len(input.data))
+		// Maps with integer keys are published with int64 keys: that is their serialized form, and what
+		// expressions such as $.steps.loop.failed.error.errors[0] index them with.
+		dataMap := make(map[int64]any, len(input.data))
 		for i, entry := range outputs {
 			if entry != nil {
-				dataMap[i] = entry
+				dataMap[int64(i)] = entry
 			}
 		}
 		outputData = map[string]any{
@@ -873,9 +875,9 @@ func (r *runningStep) processInput(input executeInput) {
 }
 
 // returns true if there is an error.
-func (r *runningStep) executeSubWorkflows(input executeInput) ([]any, map[int]string) {
+func (r *runningStep) executeSubWorkflows(input executeInput) ([]any, map[int64]string) {
 	itemOutputs := make([]any, len(input.data))
-	itemErrors := make(map[int]string, len(input.data))
+	itemErrors := make(map[int64]string, len(input.data))
 	wg := &sync.WaitGroup{}
 	wg.Add(len(input.data))
 	sem := make(chan struct{}, input.parallelism)
@@ -906,7 +908,7 @@ func (r *runningStep) executeSubWorkflows(input executeInput) ([]any, map[int]st
 			}
 			r.lock.Lock()
 			if err != nil {
-				itemErrors[i] = err.Error()
+				itemErrors[int64(i)] = err.Error()
 			} else {
 				itemOutputs[i] = outputData
 			}
